@@ -8,7 +8,7 @@ MODULE = "Poupool.Properties.C05"
 
 def run(chk):
     ac.run_actor_property(chk, MODULE, THEOREMS, monitor_pids=["C05"], extra=globals().get("extra"))
-    ac.dispatch_facts(chk, ['C14_fact_methods'])
+    ac.dispatch_facts(chk, ['C14_fact_routing'])
     ac.responsiveness(chk, ['Tank'])
     from checks import altcfg as _alt
     _alt.binding(chk, ['tank'])
